@@ -1,40 +1,73 @@
 #!/usr/bin/env python3
-"""Sensitivity: re-introduce each repaired defect (reverse-apply its fix commit to /repo's working tree),
-run the quick check of the property it was logged under, expect exit 1, restore the tree.
-Writes /verif/seeded/revert-fix-results.json. Never commits anything in /repo."""
-import json, re, subprocess, sys, os
-ROOT='/verif'
-rows=[]
-for line in open(os.path.join(ROOT,'known-findings.txt')):
-    m=re.match(r'fixed: property=(C\d+) ([0-9a-f]{7}) (.*)', line.strip())
-    if m: rows.append(m.groups())
-only=set(sys.argv[1:])
-results=[]
+"""Sensitivity: re-introduce each repaired defect (reverse-apply its fix commit), run the quick check of
+the property it was logged under, expect exit 1.
+
+The campaign works on private copies so that it never disturbs /repo or /verif:
+  /tmp/campaign/repo  = git worktree of /repo HEAD
+  /tmp/campaign/verif = copy of /verif whose harness depends on that worktree
+Results are merged into /verif/seeded/revert-fix-results.json.
+usage: revert_fix_campaign.py [commit-or-property ...]   (default: all `fixed:` lines)"""
+import json, os, re, subprocess, sys
+
+SRC = '/verif'
+ROOT = '/tmp/campaign/verif'
+REPO = '/tmp/campaign/repo'
+
+
 def sh(cmd, **kw):
     return subprocess.run(cmd, shell=True, stdout=subprocess.PIPE, stderr=subprocess.STDOUT, text=True, **kw)
-assert sh('git -C /repo status --porcelain').stdout.strip()=='' , 'repo not clean'
-for prop, commit, what in rows:
-    if only and commit not in only and prop not in only: continue
-    diff=sh('git -C /repo show %s -- src'%commit).stdout
-    open('/tmp/revert.diff','w').write(diff)
-    r=sh('git -C /repo apply -R /tmp/revert.diff')
-    if r.returncode!=0:
-        r=sh('git -C /repo apply -R --3way /tmp/revert.diff')
-    if r.returncode!=0:
-        sh('git -C /repo checkout -- . && git -C /repo reset -q')
-        results.append({"property":prop,"commit":commit,"what":what[:100],"outcome":"cannot-revert-cleanly (later fixes touch the same lines)"})
-        print(prop, commit, 'cannot revert cleanly'); continue
-    c=sh('cd %s && ./check %s'%(ROOT,prop))
-    viol=[l for l in c.stdout.split('\n') if l.startswith('VIOLATION') or ('check: C' in l and '|' in l)]
-    sig=''
-    for l in c.stdout.split('\n'):
-        mm=re.match(r'check: (C\d+\|[^:]*):', l)
-        if mm: sig=mm.group(1); break
-    results.append({"property":prop,"commit":commit,"what":what[:100],"exit":c.returncode,"signature":sig})
-    print(prop, commit, 'exit', c.returncode, sig, flush=True)
-    sh('git -C /repo checkout -- . && git -C /repo reset -q')
-    if c.returncode==2:
-        print(c.stdout[-1500:])
-os.makedirs(os.path.join(ROOT,'seeded'),exist_ok=True)
-json.dump(results,open(os.path.join(ROOT,'seeded','revert-fix-results.json'),'w'),indent=1)
-assert sh('git -C /repo status --porcelain').stdout.strip()=='' , 'repo not restored!'
+
+
+def prep():
+    sh('git -C /repo worktree remove --force %s' % REPO)
+    sh('rm -rf %s' % REPO)
+    r = sh('mkdir -p /tmp/campaign && git -C /repo worktree add -q %s HEAD' % REPO)
+    assert r.returncode == 0, r.stdout
+    r = sh('mkdir -p %s && rsync -a --delete --exclude target --exclude replays --exclude .git %s/ %s/' % (ROOT, SRC, ROOT))
+    assert r.returncode == 0, r.stdout
+    f = os.path.join(ROOT, 'harness/Cargo.toml')
+    t = open(f).read().replace('path = "/repo"', 'path = "%s"' % REPO)
+    open(f, 'w').write(t)
+
+
+def main():
+    prep()
+    rows = []
+    for line in open(os.path.join(SRC, 'known-findings.txt')):
+        m = re.match(r'fixed: property=(C\d+) ([0-9a-f]{7}) (.*)', line.strip())
+        if m:
+            rows.append(m.groups())
+    only = set(sys.argv[1:])
+    results = []
+    for prop, commit, what in rows:
+        if only and commit not in only and prop not in only:
+            continue
+        diff = sh('git -C /repo show %s -- src' % commit).stdout
+        open('/tmp/campaign/revert.diff', 'w').write(diff)
+        r = sh('git -C %s apply -R /tmp/campaign/revert.diff' % REPO)
+        if r.returncode != 0:
+            sh('git -C %s reset -q --hard HEAD' % REPO)
+            results.append({"property": prop, "commit": commit, "what": what[:120], "outcome": "cannot be reverted mechanically (later fixes touch the same lines)"})
+            print(prop, commit, 'cannot revert cleanly', flush=True)
+            continue
+        c = sh('cd %s && ./check %s' % (ROOT, prop))
+        sig = ''
+        for l in c.stdout.split('\n'):
+            mm = re.match(r'check: (C\d+\|[^:]*):', l)
+            if mm:
+                sig = mm.group(1)
+                break
+        results.append({"property": prop, "commit": commit, "what": what[:120], "exit": c.returncode, "signature": sig})
+        print(prop, commit, 'exit', c.returncode, sig, flush=True)
+        if c.returncode == 2:
+            print(c.stdout[-1500:], flush=True)
+        sh('git -C %s reset -q --hard HEAD' % REPO)
+    out = os.path.join(SRC, 'seeded', 'revert-fix-results.json')
+    os.makedirs(os.path.dirname(out), exist_ok=True)
+    old = json.load(open(out)) if os.path.exists(out) else []
+    keep = [o for o in old if not any(o['commit'] == r['commit'] and o['property'] == r['property'] for r in results)]
+    json.dump(keep + results, open(out, 'w'), indent=1)
+
+
+if __name__ == '__main__':
+    main()
